@@ -741,6 +741,8 @@ func recordHistory(t *testing.T, tw *tracelog.Writer, seed int64, nops, drainEve
 		emit(ev)
 	}
 
+	// withdrawPos: withdraw `amt` of liquidity from the given position (an extra args key marks scripted uses)
+	var withdrawPos func(p posSt, amt osmomath.Dec, mark string)
 	doWithdraw := func() {
 		ps := livePos()
 		if len(ps) == 0 {
@@ -758,7 +760,13 @@ func recordHistory(t *testing.T, tw *tracelog.Writer, seed int64, nops, drainEve
 		default:
 			amt = liq.Add(osmomath.SmallestDec()) // too much: must fail
 		}
+		withdrawPos(p, amt, "")
+	}
+	withdrawPos = func(p posSt, amt osmomath.Dec, mark string) {
 		ev := &event{Op: "withdraw", Who: p.Own, Args: map[string]any{"id": p.ID, "liq": apphelp.BigD(amt)}}
+		if mark != "" {
+			ev.Args["plant"] = mark
+		}
 		m := &types.MsgWithdrawPosition{PositionId: p.ID, Sender: w.users[p.Own-1].String(), LiquidityAmount: amt}
 		var resp *types.MsgWithdrawPositionResponse
 		o := apphelp.Outcome{}
@@ -814,12 +822,15 @@ func recordHistory(t *testing.T, tw *tracelog.Writer, seed int64, nops, drainEve
 		}
 	}
 
+	var addPos func(p posSt, mark string)
 	doAdd := func() {
 		ps := livePos()
 		if len(ps) == 0 {
 			return
 		}
-		p := ps[rng.Intn(len(ps))]
+		addPos(ps[rng.Intn(len(ps))], "")
+	}
+	addPos = func(p posSt, mark string) {
 		a0, a1 := w.randAmt(maxExp), w.randAmt(maxExp)
 		if pexp >= 0 {
 			a1 = a1.Mul(pow10(pexp))
@@ -827,6 +838,9 @@ func recordHistory(t *testing.T, tw *tracelog.Writer, seed int64, nops, drainEve
 			a0 = a0.Mul(pow10(-pexp))
 		}
 		ev := &event{Op: "add", Who: p.Own, Args: map[string]any{"id": p.ID, "a0": apphelp.BigI(a0), "a1": apphelp.BigI(a1)}}
+		if mark != "" {
+			ev.Args["plant"] = mark
+		}
 		m := &types.MsgAddToPosition{PositionId: p.ID, Sender: w.users[p.Own-1].String(), Amount0: a0, Amount1: a1,
 			TokenMinAmount0: osmomath.ZeroInt(), TokenMinAmount1: osmomath.ZeroInt()}
 		var resp *types.MsgAddToPositionResponse
@@ -869,13 +883,19 @@ func recordHistory(t *testing.T, tw *tracelog.Writer, seed int64, nops, drainEve
 		emit(ev)
 	}
 
+	var collectPos func(kind string, p posSt, mark string)
 	doCollect := func(kind string) {
 		ps := livePos()
 		if len(ps) == 0 {
 			return
 		}
-		p := ps[rng.Intn(len(ps))]
+		collectPos(kind, ps[rng.Intn(len(ps))], "")
+	}
+	collectPos = func(kind string, p posSt, mark string) {
 		ev := &event{Op: kind, Who: p.Own, Args: map[string]any{"id": p.ID}}
+		if mark != "" {
+			ev.Args["plant"] = mark
+		}
 		o := apphelp.Outcome{}
 		if kind == "collectFee" {
 			m := &types.MsgCollectSpreadRewards{PositionIds: []uint64{p.ID}, Sender: w.users[p.Own-1].String()}
@@ -1034,22 +1054,29 @@ func recordHistory(t *testing.T, tw *tracelog.Writer, seed int64, nops, drainEve
 		emit(ev)
 	}
 
+	var incentiveWith func(di int, amt osmomath.Int, rate osmomath.Dec, startOff time.Duration, mark string)
 	doIncentive := func() {
-		who := rng.Intn(nusers)
 		di := 2 + rng.Intn(2) // inca / incb
 		amt := w.randAmt(9)
 		rate := osmomath.NewDecFromInt(w.randAmt(6)).QuoInt64(int64(1 + rng.Intn(1000)))
 		if rate.IsZero() {
 			rate = osmomath.OneDec()
 		}
-		ui := incUp[di-2]
 		startOff := time.Duration(0)
 		if rng.Intn(3) == 0 {
 			startOff = time.Duration(rng.Intn(3600)) * time.Second
 		}
+		incentiveWith(di, amt, rate, startOff, "")
+	}
+	incentiveWith = func(di int, amt osmomath.Int, rate osmomath.Dec, startOff time.Duration, mark string) {
+		who := rng.Intn(nusers)
+		ui := incUp[di-2]
 		start := w.Ctx.BlockTime().Add(startOff)
 		ev := &event{Op: "incentive", Who: who + 1, Args: map[string]any{"denom": di, "amt": apphelp.BigI(amt), "rate": apphelp.BigD(rate),
 			"start": ms(start, w.t0), "up": ui}}
+		if mark != "" {
+			ev.Args["plant"] = mark
+		}
 		var rec types.IncentiveRecord
 		o := w.Try(func(ctx sdk.Context) error {
 			var err error
@@ -1063,6 +1090,14 @@ func recordHistory(t *testing.T, tw *tracelog.Writer, seed int64, nops, drainEve
 		emit(ev)
 	}
 
+	advance := func(d time.Duration) {
+		if ms(w.Ctx.BlockTime().Add(d), w.t0) > 1_900_000_000 {
+			d = time.Second
+		}
+		w.AdvanceTime(d)
+		ev := &event{Op: "time", Args: map[string]any{"dtMs": d.Milliseconds()}, OK: true}
+		emit(ev)
+	}
 	doTime := func() {
 		var d time.Duration
 		switch r := rng.Intn(10); {
@@ -1075,12 +1110,11 @@ func recordHistory(t *testing.T, tw *tracelog.Writer, seed int64, nops, drainEve
 		default:
 			d = time.Duration(1+rng.Intn(3)) * 24 * time.Hour
 		}
-		if ms(w.Ctx.BlockTime().Add(d), w.t0) > 1_900_000_000 {
-			d = time.Second
+		// every fourth advance is not a whole number of seconds (emission rates are per second)
+		if rng.Intn(4) == 0 {
+			d += time.Duration(1+rng.Intn(999)) * time.Millisecond
 		}
-		w.AdvanceTime(d)
-		ev := &event{Op: "time", Args: map[string]any{"dtMs": d.Milliseconds()}, OK: true}
-		emit(ev)
+		advance(d)
 	}
 
 	doCreate(true)
